@@ -916,7 +916,7 @@ def abstract_fp(goal):
 
 
 FP_MODE = False  # set by float64 harnesses (vf.fpx): goals are QF_FP(+UF) and go to the bit-blasting tactic
-FP_TIMEOUT_MS = 120000
+FP_TIMEOUT_MS = 300000  # typical binary64 goals take 10-70 s with cvc5; the margin is for a loaded machine
 
 
 def _strategies(goal, timeout_ms, want_model=True):
